@@ -341,7 +341,7 @@ func countCalls(p *Prog, fnName, callee string) int {
 	n := 0
 	for _, f := range withClosures(fn) {
 		eachInstr(f, func(b *ssa.BasicBlock, in ssa.Instruction) {
-			if c, ok := in.(ssa.CallInstruction); ok && calleeFullName(c) == callee {
+			if c, ok := in.(ssa.CallInstruction); ok && (calleeFullName(c) == callee || strings.HasSuffix(calleeFullName(c), callee)) {
 				n++
 			}
 		})
